@@ -8,12 +8,6 @@ pub assume_specification [u8::is_ascii_digit] (c: &u8) -> (r: bool)
     ensures r == is_digit(*c);
 //@include specs/json_number.rs
 
-// value of the decimal digits s[a..b)
-pub open spec fn dec_val(s: Seq<u8>, a: int, b: int) -> int
-    decreases b - a
-{
-    if b <= a { 0 } else { dec_val(s, a, b - 1) * 10 + (s[b - 1] as int - 0x30) }
-}
 pub open spec fn pow10(n: nat) -> nat decreases n { if n == 0 { 1 } else { 10 * pow10((n - 1) as nat) } }
 pub proof fn lemma_dec_val_bound(s: Seq<u8>, a: int, b: int)
     requires 0 <= a <= b <= s.len(), forall|j: int| a <= j < b ==> is_digit(#[trigger] s[j]),
@@ -67,7 +61,7 @@ fn parse_float(significant: u64, exponent: i32, negative: bool, trunc: bool, raw
     ensures
         res.is_ok() <==> exp_end(data@, *old(index) as int).is_some(),
         res.is_ok() ==> *final(index) == exp_end(data@, *old(index) as int).unwrap() && -1000000 < res.unwrap() < 1000000,
-        *final(index) <= data@.len(),
+        *old(index) <= *final(index) <= data@.len(),
 //@before /check_digit!\(data, \*index\);/
     let ghost q1 = *index as int;
     proof { lemma_digits_end_bounds(data@, q1); }
@@ -165,7 +159,7 @@ pub proof fn lemma_dec_val_shift(s: Seq<u8>, t: Seq<u8>, off: int, a: int, b: in
         // acceptance: digits, then an optional well-formed exponent
         res.is_ok() <==> num_tail(data@, *old(index) as int, true).is_some(),
         res.is_ok() ==> *final(index) == num_tail(data@, *old(index) as int, true).unwrap(),
-        *final(index) <= data@.len(),
+        *old(index) <= *final(index) <= data@.len(),
         // the accumulated significand is the old one extended by the first k = min(need, #digits) fraction digits
         res.is_ok() ==> ({
             let d = digits_end(data@, *old(index) as int);
@@ -229,10 +223,6 @@ pub proof fn lemma_dec_val_shift(s: Seq<u8>, t: Seq<u8>, off: int, a: int, b: in
     proof { lemma_digits_run(s, i0, *index - i0); lemma_digits_end_bounds(s, *index as int); }
 //@end
 
-pub open spec fn is_plain_int(s: Seq<u8>, p: int) -> bool {
-    let e = digits_end(s, p);
-    dig_at(s, p) && (s[p] != 0x30 || !dig_at(s, p + 1)) && !at(s, e, 0x2e) && !at(s, e, 0x65) && !at(s, e, 0x45)
-}
 pub proof fn lemma_zeros_run(s: Seq<u8>, a: int, b: int)
     requires 0 <= a <= b <= s.len(), forall|j: int| a <= j < b ==> #[trigger] s[j] == 0x30,
     ensures digits_end(s, a) == digits_end(s, b),
@@ -262,7 +252,7 @@ fn neg_f64(x: f64) -> (r: f64) { -x }
         res.is_ok() ==> lenient_end(data@, *old(index) as int) == Some(*final(index) as int),
         lenient_end(data@, *old(index) as int).is_none() ==> res.is_err(),
         (res.is_err() && lenient_end(data@, *old(index) as int).is_some()) ==> res.unwrap_err() is FloatMustBeFinite,
-        *final(index) <= data@.len(),
+        *old(index) <= *final(index) <= data@.len(),
         // plain integers are exact
         is_plain_int(data@, *old(index) as int) ==> ({
             let v = dec_val(data@, *old(index) as int, digits_end(data@, *old(index) as int));
